@@ -14,8 +14,8 @@ from ..common import Result
 ID = "C15"
 LEVEL = "exploration"
 NEEDS_PTY = True
-N_HIST = {"quick": 250, "thorough": 12000}
-N_STRESS = {"quick": 20, "thorough": 700}
+N_HIST = {"quick": 250, "thorough": 60000}
+N_STRESS = {"quick": 20, "thorough": 3000}
 RULE = (
     "histories over {resize (cells and/or pixels), enable/disable_win_size_swap, enable/disable_queries, "
     "set_cell_ratio(FIXED | DYNAMIC | float), reads of get_cell_size / get_cell_ratio / a terminal_size_cached "
